@@ -392,7 +392,49 @@ def check_witness(prog, ctx):
     ctx.minimum(rid, 3, "dtype, backend, get_any_array")
 
 
+def check_witness_gates(prog, ctx):
+    """R20.4: `.dtype` / `.backend` of an array is a WITNESS read off one stored block (R20.3); after mixed arithmetic the blocks of one
+    array may differ in element type. A branch on that witness must therefore not decide whether a block-wise value operation
+    (apply_to_arrays, _map_blocks, a store into .blocks, a loop over .blocks) is carried out."""
+    rid = "R20.4"
+    n = 0
+    for f in sorted(prog.funcs.values(), key=lambda f: f.fq):
+        if f.parent is not None or f.cls is None:
+            continue
+        for node in walk_own(f.node):
+            if not isinstance(node, (ast.If, ast.IfExp)):
+                continue
+            mentions = [a for a in ast.walk(node.test) if isinstance(a, ast.Attribute) and a.attr == "dtype"
+                        and isinstance(a.value, ast.Name) and a.value.id in (f.params()[:1] + ["new", "x", "xy", "self"])]
+            if not mentions:
+                continue
+            n += 1
+            body = node.body if isinstance(node, ast.If) else [node.body]
+            other = node.orelse if isinstance(node, ast.If) else [node.orelse]
+
+            def blockwise(stmts):
+                for s_ in stmts:
+                    for c in ast.walk(s_):
+                        if isinstance(c, ast.Call) and isinstance(c.func, ast.Attribute) and c.func.attr in ("apply_to_arrays", "_map_blocks", "_do_unary_op"):
+                            return src(c)[:60]
+                        if isinstance(c, ast.Subscript) and isinstance(c.ctx, ast.Store) and "blocks" in src(c.value):
+                            return src(c)[:60]
+                        if isinstance(c, ast.For) and "blocks" in src(c.iter):
+                            return src(c.iter)[:60]
+                return None
+
+            a_, b_ = blockwise(body), blockwise(other or [])
+            ctx.check((a_ is None and b_ is None) or (a_ is not None and b_ is not None), rid, f, node, src(node.test),
+                      f"`{src(node.test)}` branches on the array-level dtype witness (read off ONE block); a block-wise value operation "
+                      f"({a_ or b_}) must not depend on it, since blocks of one array may differ in element type")
+    if not n:
+        bb = prog.cls("BlockBase")
+        g = bb.methods.get("dtype")
+        ctx.ok(rid, f"{g.file}:{g.qualname}" if g else "symmray", "no method branches on the array-level dtype witness")
+
+
 def run(prog, ctx):
+    ctx.rule("R20.4", "no block-wise value operation is gated on the array-level dtype witness (the witness describes one block only)")
     ctx.rule("R20.1", "every allocation of array data receives its dtype from existing block data: like=<block> on the ar.do path, "
              "dtype=<block>.dtype, or **kw whose 'dtype' entry is <block>.dtype (traced through parameters over all call sites)")
     ctx.rule("R20.2", "cast-like constructs (.astype, .real, .imag, float(), complex(), int(), dtype= views) occur only at the sites "
@@ -402,3 +444,4 @@ def run(prog, ctx):
     check_alloc(prog, ctx)
     check_casts(prog, ctx)
     check_witness(prog, ctx)
+    check_witness_gates(prog, ctx)
